@@ -18,7 +18,7 @@ from .. import cover, emmon, gen, monitors, ref
 LEVEL = 'exploration'
 JOBS = {'quick': 4, 'thorough': 16}
 REQUIRED_MONITORS = ('em_law_contract', 'equivalences_vs_nearest_anchor')
-REQUIRED_CLASSES = ('reference:through-the-parsers', 'reference:bonds-with-colliding-number-strings', 'geometry:generic', 'geometry:linear-z', 'geometry:linear-x', 'geometry:linear-int',
+REQUIRED_CLASSES = ('sequence:copy-of-the-map-after-reference-moved', 'reference:through-the-parsers', 'reference:bonds-with-colliding-number-strings', 'geometry:generic', 'geometry:linear-z', 'geometry:linear-x', 'geometry:linear-int',
                     'geometry:linear-moved', 'geometry:partial-collinear', 'geometry:planar-xy', 'geometry:lattice',
                     'anchor:collinear', 'anchor:generic', 'scale:one', 'scale:uniform', 'placement:far',
                     'placement:on-atoms', 'shipped-pair', 'sequence:construction-object-after-other-calls')
@@ -133,6 +133,22 @@ def run_gen(ctx, case):
         except Exception as exc:  # noqa
             ctx.violation(f'map-raises-in-sequence:{type(exc).__name__}:{info["geometry"]}', str(exc)[:200], witness=w)
             continue
+        if it % 5 == 1:
+            # a copy of the map object, taken after the construction reference was moved away, still reproduces the target on
+            # the construction configuration (exactly as the map itself does)
+            import copy
+            try:
+                snap = emmon.with_positions(refm, pos)
+                refm.move(rng.normal(size=3) * 2)
+                a = np.array(emap(snap).atoms_positions)
+                b = np.array(copy.copy(emap)(snap).atoms_positions)
+                ctx.hit('sequence:copy-of-the-map-after-reference-moved')
+                if a.shape != b.shape or np.abs(a - b).max() > 1e-12:
+                    ctx.violation('copy-of-map-answers-differently', f'copy.copy(map) and the map differ by {np.abs(a - b).max():.3g} on the construction configuration', witness=w)
+                refm.atoms_positions = pos.copy()
+            except Exception as exc:  # noqa
+                ctx.violation(f'map-raises-in-sequence:{type(exc).__name__}:{info["geometry"]}', str(exc)[:200], witness=w)
+                continue
         ctx.count('evaluations')
         ctx.hit('geometry:' + info['geometry'])
         ctx.hit('placement:' + placement)
